@@ -4,6 +4,7 @@ package main
 import (
 	"verif/checks/c02"
 	"verif/checks/c03"
+	"verif/checks/c07"
 	"verif/checks/c08"
 	"verif/checks/c09"
 	"verif/checks/c12"
@@ -15,6 +16,7 @@ func main() {
 	ev.Main(map[string]*ev.Check{
 		"C02": c02.Check,
 		"C03": c03.Check,
+		"C07": c07.Check,
 		"C08": c08.Check,
 		"C09": c09.Check,
 		"C12": c12.Check,
